@@ -61,7 +61,7 @@ pub fn run(cfg: &Cfg) -> i32 {
                 jumps: h % 4 == 2,
                 cont_max: false,
                 set_vars: true,
-                stop_at_end: true,
+                stop_at_end: true, bad_calls: false,
                 jump_targets: None,
             };
             let run = std::panic::catch_unwind(std::panic::AssertUnwindSafe(|| -> Result<(), String> {
@@ -196,7 +196,7 @@ pub fn run(cfg: &Cfg) -> i32 {
                         return Ok(());
                     }
                 }
-                let h2cfg = HistCfg { max_ops: cfg.pick(30, 50), flows: h % 2 == 0, jumps: false, cont_max: h % 3 == 0, set_vars: true, stop_at_end: true, jump_targets: None };
+                let h2cfg = HistCfg { max_ops: cfg.pick(30, 50), flows: h % 2 == 0, jumps: false, cont_max: h % 3 == 0, set_vars: true, stop_at_end: true, bad_calls: false, jump_targets: None };
                 let h2 = gen_history_on(&mut fresh, c, &mut rng2, &h2cfg);
                 if h2.fuel {
                     rep.inconclusive("fuel-in-H2");
